@@ -2,8 +2,8 @@ package rtmr
 
 import (
 	"crypto"
+	"crypto/sha512"
 	"errors"
-	"hash"
 	"os"
 
 	"github.com/google/go-configfs-tsm/configfs/configfsi"
@@ -49,33 +49,12 @@ func m_ExtendDigest(client configfsi.Client, rtmrIndex int, digest []byte) error
 	return nil
 }
 
-// hHash models crypto.SHA384.New(): a deterministic function of the identity
-// of the byte sequences written to it.
-type hHash struct {
-	ids    []uint64
-	direct bool
+// sha384 is the specification's hash: the engine treats crypto/sha512 (New384, Sum384 and
+// crypto.SHA384.New alike) as one uninterpreted function of the message bytes.
+func sha384(b []byte) []byte {
+	d := sha512.Sum384(b)
+	return d[:]
 }
-
-func (h *hHash) Write(p []byte) (int, error) {
-	id, _ := vp.GhostGet(p, "content-id").(uint64)
-	if vp.GhostGet(p, "content-id") == nil {
-		h.direct = true
-	}
-	h.ids = append(h.ids, id)
-	return len(p), nil
-}
-func (h *hHash) Sum(b []byte) []byte {
-	if len(h.ids) == 1 && !h.direct {
-		return append(b, vp.UFBytes("SHA384", 48, h.ids[0])...)
-	}
-	return append(b, vp.Bytes("sha384-of-something-else", 48)...)
-}
-func (h *hHash) Reset()         { h.ids = nil }
-func (h *hHash) Size() int      { return 48 }
-func (h *hHash) BlockSize() int { return 128 }
-
-//vp:model (crypto.Hash).New
-func m_HashNew(h crypto.Hash) hash.Hash { return &hHash{} }
 
 func newTSM() *hTSM {
 	t := &hTSM{fail: vp.Choose("tsmFails", 2) == 1}
@@ -121,8 +100,6 @@ func H17b_ExtendEventLog() {
 	idx := vp.Int("index")
 	algo := crypto.Hash(vp.U64("hashAlgo"))
 	log := vp.Bytes("eventlog", vp.IntRange("log_len", 0, 128))
-	logID := vp.U64("eventlog_identity")
-	vp.GhostSet(log, "content-id", logID)
 	err := ExtendEventLogClient(t, idx, algo, log)
 	valid := vp.And(idx >= 0, idx <= 3, algo == crypto.SHA384, len(log) > 0)
 	vp.Reach("valid-request", vp.And(valid, err == nil))
@@ -132,7 +109,7 @@ func H17b_ExtendEventLog() {
 	vp.Assert("valid-request-extends-exactly-once", vp.Implies(valid, t.nExtend == 1))
 	if t.nExtend == 1 {
 		vp.Assert("extends-the-requested-register", t.extIndex == idx)
-		vp.Assert("extends-with-sha384-of-the-event-log", vp.BytesEq(t.extDig, vp.UFBytes("SHA384", 48, logID)))
+		vp.Assert("extends-with-sha384-of-the-event-log", vp.BytesEq(t.extDig, sha384(log)))
 		vp.Assert("error-iff-tsm-fails", (err != nil) == t.fail)
 	}
 }
@@ -144,7 +121,6 @@ func H17c_TwoRequests() {
 	t := newTSM()
 	// first request: an event log or a digest, any index
 	log1 := vp.Bytes("eventlog1", vp.IntRange("log1_len", 0, 64))
-	vp.GhostSet(log1, "content-id", vp.U64("eventlog1_identity"))
 	idx1 := vp.Int("index1")
 	if vp.Choose("firstKind", 2) == 0 {
 		_ = ExtendEventLogClient(t, idx1, crypto.Hash(vp.U64("hashAlgo1")), log1)
@@ -154,14 +130,12 @@ func H17c_TwoRequests() {
 	n1 := t.nExtend
 	// second request: a valid event-log request
 	log2 := vp.Bytes("eventlog2", vp.IntRange("log2_len", 1, 64))
-	id2 := vp.U64("eventlog2_identity")
-	vp.GhostSet(log2, "content-id", id2)
 	idx2 := vp.IntRange("index2", 0, 3)
 	err := ExtendEventLogClient(t, idx2, crypto.SHA384, log2)
 	vp.Reach("second-accepted", err == nil)
 	vp.Assert("second-request-extends-exactly-once", t.nExtend == n1+1)
 	if t.nExtend == n1+1 {
 		vp.Assert("second-extends-the-requested-register", t.extIndex == idx2)
-		vp.Assert("second-extends-with-sha384-of-its-own-log", vp.BytesEq(t.extDig, vp.UFBytes("SHA384", 48, id2)))
+		vp.Assert("second-extends-with-sha384-of-its-own-log", vp.BytesEq(t.extDig, sha384(log2)))
 	}
 }
